@@ -146,7 +146,18 @@ sim::Json generate(const std::string& tier, uint64_t seed, uint64_t index) {
   script.set("solve_iters", 0);
   script.set("basis_salt", (long)rng.below(6));
   script.set("dual_mode", (long)(rng.chance(0.5) ? 0 : rng.range(1, 3)));
+  // an answer without a primal point (infeasible / failed / duals only): the .sol holds fewer primal values than the problem has columns
+  if (rng.chance(0.15)) script.set("primal", "none");
   sc.set("script", script);
+  // bounds and row ranges that need all 17 significant digits (0.1+0.2, 1.1*1.1, thirds)
+  if (rng.chance(0.25)) {
+    static const double aw[] = {0.1 + 0.2, 1.1 * 1.1, 1.0 / 3.0, 2.0 / 3.0, 0.7 * 3, 1e-7 / 3, 123456.789 * 1.000001};
+    for (int j = 0; j < n; ++j) if (!ty[j] && rng.chance(0.6)) { if (std::isfinite(lb[j])) lb[j] -= aw[rng.below(7)]; if (std::isfinite(ub[j])) ub[j] += aw[rng.below(7)]; }
+    for (int i = 0; i < m; ++i) if (rng.chance(0.6)) { if (std::isfinite(rlb[i]) && rlb[i] != rub[i]) rlb[i] -= aw[rng.below(7)]; else if (std::isfinite(rub[i])) { rub[i] += aw[rng.below(7)]; if (rlb[i] > -INFINITY && rlb[i] + 5 > rub[i] - 5 && rlb[i] != rub[i]) {} } }
+    for (int i = 0; i < m; ++i) if (std::isfinite(rlb[i]) && std::isfinite(rub[i]) && rlb[i] > rub[i]) rlb[i] = rub[i];
+    sc.set("lb", jarr(lb)); sc.set("ub", jarr(ub)); sc.set("rlb", jarr(rlb)); sc.set("rub", jarr(rub));
+    sc.set("awkward_bounds", true);
+  }
   return sc;
 }
 
@@ -557,12 +568,17 @@ sim::RunResult run(const sim::Json& sc) {
   if (viol.empty() && solved && sol) {
     long status = sc["script"]["status"].as_int();
     if (sol.solve_result_ != status) flag("WRONG_SOLVE_RESULT", "code", "solver reported " + std::to_string(status) + ", the caller received " + std::to_string(sol.solve_result_));
-    if ((int)sol.x_.size() != n) flag("WRONG_SOLUTION_SIZE", "x", "solution has " + std::to_string(sol.x_.size()) + " values for " + std::to_string(n) + " columns");
+    const bool pnone = sc["script"]["primal"].as_str() == "none";
+    if (pnone) {
+      r.stats.set("answer_without_primal", 1);
+      for (double xv : sol.x_) if (xv != 0) { flag("WRONG_PRIMAL", "x-none", "the solver returned no primal point, the caller received a non-zero value " + gen::fmt_double(xv)); break; }
+    }
+    else if ((int)sol.x_.size() != n) flag("WRONG_SOLUTION_SIZE", "x", "solution has " + std::to_string(sol.x_.size()) + " values for " + std::to_string(n) + " columns");
     else for (int j = 0; j < n; ++j) {
       double want = SimBackend::VarTag(vperm[j]);
       if (sol.x_[j] != want) flag("WRONG_PRIMAL", "x", "column " + std::to_string(j) + " (written at position " + std::to_string(vperm[j]) + ") received " + gen::fmt_double(sol.x_[j]) + ", the solver assigned " + gen::fmt_double(want) + " to that position");
     }
-    if (viol.empty() && (int)sol.x_.size() == n) {
+    if (viol.empty() && (int)sol.x_.size() == n && !pnone) {
       // the caller recomputes the objective from x in its own order
       mp::NLModel m2("c08b");   // only ComputeObjValue's inputs matter
       m2.SetCols({n, lb.data(), ub.data(), ty.data()});
